@@ -5,6 +5,8 @@ container as a list of ids (`View`), and how the primitives act on both.
 import HipVerif.Model.Slots
 namespace HipVerif.Slots
 
+variable {fl : Bool}
+
 /-! ### Accounting -/
 
 def NoBad (m : Mem) : Prop := ∀ e ∈ m.trace, e.bad = false
@@ -15,6 +17,20 @@ def Ev.outId : Ev → Option Nat
   | .ret a => some a
   | _ => none
 
+/-- the id that an event creates -/
+def Ev.newId : Ev → Option Nat
+  | .mk a => some a
+  | .clone _ b => some b
+  | _ => none
+
+theorem created_cons {tr : List Ev} {e0 : Ev} {n n' : Nat}
+    (h : ∀ e ∈ tr, ∀ a, e.newId = some a → a < n) (h0 : ∀ a, e0.newId = some a → a < n')
+    (hn : n ≤ n') : ∀ e ∈ e0 :: tr, ∀ a, e.newId = some a → a < n' := by
+  intro e he a ha
+  rcases List.mem_cons.mp he with rfl | he
+  · exact h0 a ha
+  · exact Nat.lt_of_lt_of_le (h e he a ha) hn
+
 theorem filterMap_outId_none {e : Ev} (tr : List Ev) (h : e.outId = none) :
     (e :: tr).filterMap Ev.outId = tr.filterMap Ev.outId := by
   simp [h]
@@ -22,7 +38,7 @@ theorem filterMap_outId_none {e : Ev} (tr : List Ev) (h : e.outId = none) :
 /-- `l` = ids currently owned by somebody inside the operation (container slots below `len`,
 iterator ranges, locals), `B` = buffers owned. Each owned id is live (not out), known (`< next`)
 and owned once; the monitor has seen no violation so far; nothing went out twice. -/
-structure Acct (m : Mem) (l : List Nat) (B : List Nat) : Prop where
+structure Acct (fl : Bool) (m : Mem) (l : List Nat) (B : List Nat) : Prop where
   nobad : NoBad m
   nodup : l.Nodup
   lt : ∀ a ∈ l, a < m.next
@@ -35,30 +51,69 @@ structure Acct (m : Mem) (l : List Nat) (B : List Nat) : Prop where
   bufsnd : m.bufs.Nodup
   /-- `out` is exactly the list of ids of the drop/return events of the trace -/
   trout : m.trace.filterMap Ev.outId = m.out
+  /-- every id created by an event of the trace is below the fresh-id counter -/
+  created : ∀ e ∈ m.trace, ∀ a, e.newId = some a → a < m.next
+  /-- the no-leak clause, carried when the flag is set: no fault is armed and every id created so
+  far is still owned or already out -/
+  full : fl = true → m.budget = none ∧ ∀ a, a < m.next → a ∈ l ∨ a ∈ m.out
 
-theorem Acct.weaken {m l B l'} (h : Acct m l B) (hn : l'.Nodup) (hs : ∀ a ∈ l', a ∈ l) :
-    Acct m l' B :=
-  { h with nodup := hn, lt := fun a ha => h.lt a (hs a ha), notout := fun a ha => h.notout a (hs a ha) }
+/-- forgetting owned ids; with the no-leak flag set nothing may actually be forgotten -/
+theorem Acct.weaken {m l B l'} (h : Acct fl m l B) (hn : l'.Nodup) (hs : ∀ a ∈ l', a ∈ l)
+    (hf : fl = true → ∀ a ∈ l, a ∈ l') : Acct fl m l' B :=
+  { h with nodup := hn, lt := fun a ha => h.lt a (hs a ha),
+           notout := fun a ha => h.notout a (hs a ha),
+           full := fun hfl => ⟨(h.full hfl).1, fun a ha =>
+             ((h.full hfl).2 a ha).imp (hf hfl a) id⟩ }
 
-theorem Acct.perm {m l B l'} (h : Acct m l B) (hp : l'.Perm l) : Acct m l' B :=
+theorem Acct.perm {m l B l'} (h : Acct fl m l B) (hp : l'.Perm l) : Acct fl m l' B :=
   h.weaken (hp.nodup_iff.mpr h.nodup) (fun _ ha => hp.mem_iff.mp ha)
+    (fun _ _ ha => hp.mem_iff.mpr ha)
 
-theorem Acct.tail {m a l B} (h : Acct m (a :: l) B) : Acct m l B :=
-  h.weaken (List.nodup_cons.mp h.nodup).2 (fun _ ha => List.mem_cons_of_mem _ ha)
+/-- the no-leak flag may always be dropped -/
+theorem Acct.toFalse {m l B} (h : Acct fl m l B) : Acct false m l B :=
+  { h with full := fun hf => by cases hf }
 
-/-- owned ids may be forgotten (leaked) -/
-theorem Acct.drop_left {m l₁ l₂ B} (h : Acct m (l₁ ++ l₂) B) : Acct m l₂ B :=
+theorem Acct.budget_none {m l B} (h : Acct fl m l B) (hf : fl = true) : m.budget = none :=
+  (h.full hf).1
+
+/-- owned ids may be forgotten (leaked) — not under the no-leak flag -/
+theorem Acct.drop_left {m l₁ l₂ B} (h : Acct fl m (l₁ ++ l₂) B) (hnf : fl = true → False) :
+    Acct fl m l₂ B :=
   h.weaken (List.nodup_append.mp h.nodup).2.1 (fun _ ha => List.mem_append_right _ ha)
+    (fun hf => (hnf hf).elim)
 
-theorem Acct.tick {m l B} (h : Acct m l B) : Acct m.tick.2 l B := by
-  unfold Mem.tick
-  split <;> exact { h with }
+theorem Mem.tick_of_none {m : Mem} (h : m.budget = none) :
+    m.tick.1 = false ∧ m.tick.2.budget = none := by
+  unfold Mem.tick; rw [h]; exact ⟨rfl, rfl⟩
 
-theorem Acct.mkVal {m l B} (h : Acct m l B) : Acct m.mkVal.2 (m.mkVal.1 :: l) B := by
+theorem Acct.tick {m l B} (h : Acct fl m l B) : Acct fl m.tick.2 l B := by
+  have hfull : fl = true → m.tick.2.budget = none ∧ ∀ a, a < m.tick.2.next → a ∈ l ∨ a ∈ m.tick.2.out :=
+    fun hf => by
+      obtain ⟨hb, hall⟩ := h.full hf
+      refine ⟨(Mem.tick_of_none hb).2, ?_⟩
+      unfold Mem.tick; rw [hb]; exact hall
+  unfold Mem.tick at hfull ⊢
+  split <;> exact { h with full := by simpa [*] using hfull }
+
+theorem Acct.mkVal {m l B} (h : Acct fl m l B) : Acct fl m.mkVal.2 (m.mkVal.1 :: l) B := by
   have hl := h.lt
   have ho := h.outlt
+  have hfull : fl = true → m.mkVal.2.budget = none ∧
+      ∀ a, a < m.mkVal.2.next → a ∈ m.mkVal.1 :: l ∨ a ∈ m.mkVal.2.out := by
+    intro hf
+    obtain ⟨hb, hall⟩ := h.full hf
+    refine ⟨hb, fun a ha => ?_⟩
+    simp only [Mem.mkVal, List.mem_cons] at ha ⊢
+    by_cases hlt : a < m.next
+    · rcases hall a hlt with h1 | h1
+      · exact Or.inl (Or.inr h1)
+      · exact Or.inr h1
+    · exact Or.inl (Or.inl (by omega))
   refine { h with nobad := ?_, nodup := ?_, lt := ?_, notout := ?_, outlt := ?_,
-                  trout := (filterMap_outId_none _ rfl).trans h.trout }
+                  trout := (filterMap_outId_none _ rfl).trans h.trout, full := hfull,
+                  created := created_cons h.created
+                    (fun a ha => by simp only [Ev.newId, Option.some.injEq] at ha; subst ha; exact Nat.lt_succ_self _)
+                    (Nat.le_succ _) }
   · intro e he
     simp [Mem.mkVal] at he
     rcases he with rfl | he
@@ -82,10 +137,10 @@ theorem Acct.mkVal {m l B} (h : Acct m l B) : Acct m.mkVal.2 (m.mkVal.1 :: l) B 
 
 @[simp] theorem Mem.mkVal_fst (m : Mem) : m.mkVal.1 = m.next := rfl
 
-theorem Acct.genVal {m l B} (h : Acct m l B) :
+theorem Acct.genVal {m l B} (h : Acct fl m l B) :
     match m.genVal with
-    | (none, m') => Acct m' l B
-    | (some a, m') => Acct m' (a :: l) B := by
+    | (none, m') => Acct fl m' l B
+    | (some a, m') => Acct fl m' (a :: l) B := by
   unfold Mem.genVal
   have ht := h.tick
   generalize m.tick = r at ht
@@ -94,17 +149,21 @@ theorem Acct.genVal {m l B} (h : Acct m l B) :
   · exact ht.mkVal
   · exact ht
 
-theorem Acct.cloneId {m l B} (x : Nat) (h : Acct m l B) :
+theorem Acct.cloneId {m l B} (x : Nat) (h : Acct fl m l B) :
     match m.cloneId x with
-    | (none, m') => Acct m' l B
-    | (some a, m') => Acct m' (a :: l) B := by
+    | (none, m') => Acct fl m' l B
+    | (some a, m') => Acct fl m' (a :: l) B := by
   unfold Mem.cloneId
   have ht := h.tick
   generalize m.tick = r at ht
   obtain ⟨p, m1⟩ := r
   cases p <;> simp
   · have := ht.mkVal
-    refine { this with nobad := ?_, trout := (filterMap_outId_none _ rfl).trans ht.trout }
+    refine { this with nobad := ?_, trout := (filterMap_outId_none _ rfl).trans ht.trout,
+                       full := this.full,
+                       created := created_cons ht.created
+                         (fun a ha => by simp only [Ev.newId, Option.some.injEq] at ha; subst ha; exact Nat.lt_succ_self _)
+                         (Nat.le_succ _) }
     intro e he
     simp at he
     rcases he with rfl | he
@@ -114,11 +173,25 @@ theorem Acct.cloneId {m l B} (x : Nat) (h : Acct m l B) :
 
 /-- an owned id goes out (dropped or returned): no violation, it is no longer owned -/
 theorem Acct.out_step {m l B a} (e : Ev) (he : e.bad = false) (ho : e.outId = some a)
-    (h : Acct m (a :: l) B) :
-    Acct { m with out := a :: m.out, trace := e :: m.trace } l B := by
+    (h : Acct fl m (a :: l) B) :
+    Acct fl { m with out := a :: m.out, trace := e :: m.trace } l B := by
   have hnd := List.nodup_cons.mp h.nodup
-  refine { h.tail with nobad := ?_, notout := ?_, outnd := ?_, outlt := ?_,
-                       trout := by simp [ho, h.trout] }
+  have hfull : fl = true → m.budget = none ∧ ∀ b, b < m.next → b ∈ l ∨ b ∈ a :: m.out := by
+    intro hf
+    obtain ⟨hb, hall⟩ := h.full hf
+    refine ⟨hb, fun b hb' => ?_⟩
+    rcases hall b hb' with h1 | h1
+    · simp only [List.mem_cons] at h1 ⊢
+      rcases h1 with rfl | h1
+      · exact Or.inr (Or.inl rfl)
+      · exact Or.inl h1
+    · exact Or.inr (List.mem_cons_of_mem _ h1)
+  refine { h with nobad := ?_, notout := ?_, outnd := ?_, outlt := ?_,
+                  nodup := hnd.2, lt := fun b hb => h.lt b (List.mem_cons_of_mem _ hb),
+                  trout := by simp [ho, h.trout], full := hfull,
+                  created := created_cons h.created
+                    (fun b hb => by cases e <;> simp [Ev.newId, Ev.outId] at hb ho)
+                    (Nat.le_refl _) }
   · intro e' he'
     simp at he'
     rcases he' with rfl | he'
@@ -135,27 +208,62 @@ theorem Acct.out_step {m l B a} (e : Ev) (he : e.bad = false) (ho : e.outId = so
     · exact h.lt _ (List.mem_cons_self ..)
     · exact h.outlt b hb
 
-theorem Acct.retId {m l B a} (h : Acct m (a :: l) B) : Acct (m.retId a) l B := by
+theorem Acct.retId {m l B a} (h : Acct fl m (a :: l) B) : Acct fl (m.retId a) l B := by
   unfold Mem.retId
   rw [if_neg (h.notout a (List.mem_cons_self ..))]
   exact h.out_step (.ret a) rfl rfl
 
-theorem Acct.markDrop {m l B a} (h : Acct m (a :: l) B) : Acct (m.markDrop a) l B := by
+theorem Acct.markDrop {m l B a} (h : Acct fl m (a :: l) B) : Acct fl (m.markDrop a) l B := by
   unfold Mem.markDrop
   rw [if_neg (h.notout a (List.mem_cons_self ..))]
   exact h.out_step (.drop a) rfl rfl
 
-theorem Acct.dropId {m l B a} (h : Acct m (a :: l) B) : Acct (m.dropId a).2 l B :=
+theorem Acct.dropId {m l B a} (h : Acct fl m (a :: l) B) : Acct fl (m.dropId a).2 l B :=
   h.markDrop.tick
 
-theorem Acct.markDrops {m B} : ∀ {as l}, Acct m (as ++ l) B → Acct (m.markDrops as) l B
+theorem Mem.markDrop_budget (a : Nat) (m : Mem) : (m.markDrop a).budget = m.budget := by
+  unfold Mem.markDrop; split <;> rfl
+
+/-- without an armed fault a destructor does not panic -/
+theorem Mem.dropId_of_none {a : Nat} {m : Mem} (h : m.budget = none) : (m.dropId a).1 = false :=
+  (Mem.tick_of_none ((Mem.markDrop_budget a m).trans h)).1
+
+theorem Mem.dropId_budget_of_none {a : Nat} {m : Mem} (h : m.budget = none) :
+    (m.dropId a).2.budget = none :=
+  (Mem.tick_of_none ((Mem.markDrop_budget a m).trans h)).2
+
+theorem Mem.dropSlot_of_none {x : Slot} {m : Mem} (h : m.budget = none) :
+    (m.dropSlot x).1 = false ∧ (m.dropSlot x).2.budget = none := by
+  cases x
+  · exact ⟨rfl, h⟩
+  · exact ⟨Mem.dropId_of_none h, Mem.dropId_budget_of_none h⟩
+
+/-- without an armed fault `drop_in_place` of a slice does not panic -/
+theorem Mem.dropSlice_of_none : ∀ (xs : List Slot) (m : Mem), m.budget = none →
+    (m.dropSlice xs).1 = false ∧ (m.dropSlice xs).2.budget = none
+  | [], _, h => ⟨rfl, h⟩
+  | x :: xs, m, h => by
+    obtain ⟨h1, h2⟩ := Mem.dropSlot_of_none (x := x) h
+    obtain ⟨h3, h4⟩ := Mem.dropSlice_of_none xs _ h2
+    simp only [Mem.dropSlice, h1, h3, h4, Bool.or_self, and_self]
+
+/-- without an armed fault a `for` loop of drops does not panic -/
+theorem Mem.dropLoop_of_none : ∀ (xs : List Slot) (m : Mem), m.budget = none →
+    (m.dropLoop xs).1 = false ∧ (m.dropLoop xs).2.budget = none
+  | [], _, h => ⟨rfl, h⟩
+  | x :: xs, m, h => by
+    obtain ⟨h1, h2⟩ := Mem.dropSlot_of_none (x := x) h
+    obtain ⟨h3, h4⟩ := Mem.dropLoop_of_none xs _ h2
+    simp only [Mem.dropLoop, h1, Bool.false_eq_true, if_false, h3, h4, and_self]
+
+theorem Acct.markDrops {m B} : ∀ {as l}, Acct fl m (as ++ l) B → Acct fl (m.markDrops as) l B
   | [], _, h => h
   | a :: as, l, h => by
     simp only [Mem.markDrops]
     exact Acct.markDrops (as := as) h.markDrop
 
 theorem Acct.markDropSlots {m B} :
-    ∀ {as l}, Acct m (as ++ l) B → Acct (m.markDropSlots (as.map .init)) l B
+    ∀ {as l}, Acct fl m (as ++ l) B → Acct fl (m.markDropSlots (as.map .init)) l B
   | [], _, h => h
   | a :: as, l, h => by
     simp only [List.map_cons, Mem.markDropSlots]
@@ -171,7 +279,7 @@ theorem Mem.dropSlice_cons_init (a : Nat) (xs : List Slot) (m : Mem) :
 
 /-- `drop_in_place` of a slice of owned elements: all of them go out, whatever panics -/
 theorem Acct.dropSlice {B} :
-    ∀ {as m l}, Acct m (as ++ l) B → Acct (m.dropSlice (as.map .init)).2 l B
+    ∀ {as m l}, Acct fl m (as ++ l) B → Acct fl (m.dropSlice (as.map .init)).2 l B
   | [], _, _, h => h
   | a :: as, m, l, h => by
     rw [List.map_cons, Mem.dropSlice_cons_init]
@@ -179,20 +287,25 @@ theorem Acct.dropSlice {B} :
 
 /-- a `for` loop of drops: the elements after a panicking drop are leaked -/
 theorem Acct.dropLoop {B} :
-    ∀ {as m l}, Acct m (as ++ l) B → Acct (m.dropLoop (as.map .init)).2 l B
+    ∀ {as m l}, Acct fl m (as ++ l) B → Acct fl (m.dropLoop (as.map .init)).2 l B
   | [], _, _, h => h
   | a :: as, m, l, h => by
     rw [List.map_cons, Mem.dropLoop_cons_init]
-    have h1 : Acct (m.dropId a).2 (as ++ l) B := h.dropId
+    have h1 : Acct fl (m.dropId a).2 (as ++ l) B := h.dropId
     by_cases hp : (m.dropId a).1 = true
-    · rw [if_pos hp]; exact h1.drop_left
+    · rw [if_pos hp]
+      refine h1.drop_left (fun hf => ?_)
+      rw [Mem.dropId_of_none (h.budget_none hf)] at hp
+      cases hp
     · rw [if_neg hp]; exact Acct.dropLoop (as := as) h1
 
-theorem Acct.alloc {m l B} (h : Acct m l B) : Acct m.alloc.2 l (m.alloc.1 :: B) := by
+theorem Acct.alloc {m l B} (h : Acct fl m l B) : Acct fl m.alloc.2 l (m.alloc.1 :: B) := by
   have hb := h.blt
   refine { h with nobad := ?_, bnodup := ?_, blive := ?_, blt := ?_,
                   bufsnd := List.nodup_cons.mpr ⟨fun hm => Nat.lt_irrefl _ (hb _ hm), h.bufsnd⟩,
-                  trout := (filterMap_outId_none _ rfl).trans h.trout }
+                  trout := (filterMap_outId_none _ rfl).trans h.trout, full := h.full,
+                  created := created_cons h.created (fun a ha => by simp [Ev.newId] at ha)
+                    (Nat.le_refl _) }
   · intro e he
     simp [Mem.alloc] at he
     rcases he with rfl | he
@@ -211,13 +324,15 @@ theorem Acct.alloc {m l B} (h : Acct m l B) : Acct m.alloc.2 l (m.alloc.1 :: B) 
     · omega
     · have := hb b hb'; omega
 
-theorem Acct.free {m l B b} (h : Acct m l (b :: B)) : Acct (m.free b) l B := by
+theorem Acct.free {m l B b} (h : Acct fl m l (b :: B)) : Acct fl (m.free b) l B := by
   unfold Mem.free
   rw [if_pos (h.blive b (List.mem_cons_self ..))]
   have hnd := List.nodup_cons.mp h.bnodup
   refine { h with nobad := ?_, bnodup := hnd.2, blive := ?_, blt := ?_,
                   bufsnd := h.bufsnd.erase _,
-                  trout := (filterMap_outId_none _ rfl).trans h.trout }
+                  trout := (filterMap_outId_none _ rfl).trans h.trout, full := h.full,
+                  created := created_cons h.created (fun a ha => by simp [Ev.newId] at ha)
+                    (Nat.le_refl _) }
   · intro e he
     simp at he
     rcases he with rfl | he
@@ -232,6 +347,8 @@ theorem Acct.free {m l B b} (h : Acct m l (b :: B)) : Acct (m.free b) l B := by
 end HipVerif.Slots
 
 namespace HipVerif.Slots
+
+variable {fl : Bool}
 
 /-! ### Raw slot-array algebra -/
 
@@ -259,6 +376,8 @@ theorem Vec.get_mid {v : Vec} {A C : List Slot} {r : Slot} (h : v.slots = A ++ r
 end HipVerif.Slots
 
 namespace HipVerif.Slots
+
+variable {fl : Bool}
 
 /-! ### The ownership invariant -/
 
@@ -290,45 +409,56 @@ theorem HdrOk.of_eq {v v' : Vec} (h : HdrOk v) (hh : v'.h = v.h) (hc : v'.cap = 
 
 /-- Ownership invariant with a frame: besides the container (`L` = ids in slots `[0, len)`, its
 prefix, its buffer) the running operation owns the ids `loc` and the buffers `locB`. -/
-def OwnL (s : St) (loc locB : List Nat) : Prop :=
+def OwnL (fl : Bool) (s : St) (loc locB : List Nat) : Prop :=
   ∃ L rest, s.v.len = L.length ∧ s.v.slots = L.map .init ++ rest ∧ HdrOk s.v ∧
-    Acct s.mem (loc ++ (prefL s.v.h ++ L)) (locB ++ bufL s.v.h)
+    Acct fl s.mem (loc ++ (prefL s.v.h ++ L)) (locB ++ bufL s.v.h)
 
 /-- The ownership invariant at operation boundaries. -/
-def Own (s : St) : Prop := OwnL s [] []
+def Own (s : St) : Prop := OwnL false s [] []
+
+/-- The ownership invariant with the no-leak clause: no fault armed, and every id created so far is
+held by the container (slot below `len`, live prefix) or already out (dropped / returned). -/
+def OwnF (s : St) : Prop := OwnL true s [] []
 
 /-- `slots[i]` is initialised for every `i < len` -/
 def LenCoversInit (s : St) : Prop := ∀ i, i < s.v.len → ∃ a, s.v.slots[i]? = some (.init a)
 
-theorem OwnL.lenCovers {s loc locB} (h : OwnL s loc locB) : LenCoversInit s := by
+theorem OwnL.lenCovers {s loc locB} (h : OwnL fl s loc locB) : LenCoversInit s := by
   obtain ⟨L, rest, hl, hs, -, -⟩ := h
   intro i hi
   refine ⟨L[i]'(hl ▸ hi), ?_⟩
   rw [hs, List.getElem?_append_left (by simpa using hl ▸ hi)]
   simp [hl ▸ hi]
 
-theorem OwnL.nobad {s loc locB} (h : OwnL s loc locB) : NoBad s.mem := by
+theorem OwnL.nobad {s loc locB} (h : OwnL fl s loc locB) : NoBad s.mem := by
   obtain ⟨_, _, _, _, _, ha⟩ := h
   exact ha.nobad
 
-theorem OwnL.len_le {s loc locB} (h : OwnL s loc locB) : s.v.len ≤ s.v.cap := by
+theorem OwnL.len_le {s loc locB} (h : OwnL fl s loc locB) : s.v.len ≤ s.v.cap := by
   obtain ⟨L, rest, hl, hs, -, -⟩ := h
   simp [Vec.cap, hs, hl]
 
-/-- locally owned ids may be leaked -/
-theorem OwnL.leak {s loc loc' locB} (h : OwnL s (loc' ++ loc) locB) : OwnL s loc locB := by
+/-- locally owned ids may be leaked — not under the no-leak flag -/
+theorem OwnL.leak {s loc loc' locB} (h : OwnL fl s (loc' ++ loc) locB) (hnf : fl = true → False) :
+    OwnL fl s loc locB := by
   obtain ⟨L, rest, hl, hs, hp, ha⟩ := h
   refine ⟨L, rest, hl, hs, hp, ?_⟩
   rw [List.append_assoc] at ha
-  exact ha.drop_left
+  exact ha.drop_left hnf
 
-theorem OwnL.leak1 {s a loc locB} (h : OwnL s (a :: loc) locB) : OwnL s loc locB :=
-  OwnL.leak (loc' := [a]) h
+theorem OwnL.toFalse {s loc locB} (h : OwnL fl s loc locB) : OwnL false s loc locB := by
+  obtain ⟨L, rest, hl, hs, hp, ha⟩ := h
+  exact ⟨L, rest, hl, hs, hp, ha.toFalse⟩
+
+theorem OwnL.budget_none {s loc locB} (h : OwnL fl s loc locB) (hf : fl = true) :
+    s.mem.budget = none := by
+  obtain ⟨_, _, _, _, _, ha⟩ := h
+  exact ha.budget_none hf
 
 /-- anything that only touches `mem` and keeps the accounting keeps the invariant -/
-theorem OwnL.mem_step {s : St} {loc locB loc' locB' : List Nat} {m' : Mem} (h : OwnL s loc locB)
-    (hm : ∀ X Y, Acct s.mem (loc ++ X) (locB ++ Y) → Acct m' (loc' ++ X) (locB' ++ Y)) :
-    OwnL { s with mem := m' } loc' locB' := by
+theorem OwnL.mem_step {s : St} {loc locB loc' locB' : List Nat} {m' : Mem} (h : OwnL fl s loc locB)
+    (hm : ∀ X Y, Acct fl s.mem (loc ++ X) (locB ++ Y) → Acct fl m' (loc' ++ X) (locB' ++ Y)) :
+    OwnL fl { s with mem := m' } loc' locB' := by
   obtain ⟨L, rest, hl, hs, hp, ha⟩ := h
   exact ⟨L, rest, hl, hs, hp, hm _ _ ha⟩
 
@@ -346,8 +476,8 @@ theorem St.store_eq {s : St} {a : Nat} (h : s.v.len < s.v.cap) :
   simp only [St.store, St.wr, St.setLen, Vec.setLen]; split <;> rfl
 
 /-- `write(len, b); set_len(len + 1)` moves a locally owned id into the container -/
-theorem OwnL.store {s b loc locB} (h : OwnL s (b :: loc) locB) (hc : s.v.len < s.v.cap) :
-    OwnL (s.store b) loc locB := by
+theorem OwnL.store {s b loc locB} (h : OwnL fl s (b :: loc) locB) (hc : s.v.len < s.v.cap) :
+    OwnL fl (s.store b) loc locB := by
   obtain ⟨L, rest, hl, hs, hp, ha⟩ := h
   rw [St.store_eq hc]
   cases rest with
@@ -361,17 +491,17 @@ theorem OwnL.store {s b loc locB} (h : OwnL s (b :: loc) locB) (hc : s.v.len < s
 
 /-- loop of `InlineVec::extend_from_slice`: every iteration keeps the invariant, for every
 fault position -/
-theorem iCloneIds_own {loc locB} : ∀ (srcs : List Nat) (s : St), OwnL s loc locB →
-    s.v.len + srcs.length ≤ s.v.cap → OwnL (iCloneIds srcs s).2 loc locB
+theorem iCloneIds_own {loc locB} : ∀ (srcs : List Nat) (s : St), OwnL fl s loc locB →
+    s.v.len + srcs.length ≤ s.v.cap → OwnL fl (iCloneIds srcs s).2 loc locB
   | [], s, h, _ => h
   | a :: as, s, h, hc => by
     unfold iCloneIds
-    have hcl := fun X Y (hx : Acct s.mem (loc ++ X) (locB ++ Y)) => hx.cloneId a
+    have hcl := fun X Y (hx : Acct fl s.mem (loc ++ X) (locB ++ Y)) => hx.cloneId a
     rcases hr : s.mem.cloneId a with ⟨_ | b, m'⟩
     · simp only [St.onMem, hr]
       exact h.mem_step (fun X Y hx => by have := hcl X Y hx; rw [hr] at this; exact this)
     · simp only [St.onMem, hr]
-      have h1 : OwnL { s with mem := m' } (b :: loc) locB :=
+      have h1 : OwnL fl { s with mem := m' } (b :: loc) locB :=
         h.mem_step (fun X Y hx => by have := hcl X Y hx; rw [hr] at this; exact this)
       have hc' : s.v.len < s.v.cap := by simp at hc; omega
       have h2 := h1.store hc'
@@ -382,6 +512,8 @@ theorem iCloneIds_own {loc locB} : ∀ (srcs : List Nat) (s : St), OwnL s loc lo
 end HipVerif.Slots
 
 namespace HipVerif.Slots
+
+variable {fl : Bool}
 
 /-! ### Memory primitives lifted to `OwnL` -/
 
@@ -399,61 +531,61 @@ namespace HipVerif.Slots
 theorem St.onMem_eq {α} (f : Mem → α × Mem) (s : St) :
     s.onMem f = ((f s.mem).1, { s with mem := (f s.mem).2 }) := rfl
 
-theorem OwnL.mkVal {s loc locB} (h : OwnL s loc locB) :
-    OwnL (s.onMem Mem.mkVal).2 ((s.onMem Mem.mkVal).1 :: loc) locB :=
+theorem OwnL.mkVal {s loc locB} (h : OwnL fl s loc locB) :
+    OwnL fl (s.onMem Mem.mkVal).2 ((s.onMem Mem.mkVal).1 :: loc) locB :=
   h.mem_step (fun _ _ hx => hx.mkVal)
 
-theorem OwnL.tick {s loc locB} (h : OwnL s loc locB) : OwnL (s.onMem Mem.tick).2 loc locB :=
+theorem OwnL.tick {s loc locB} (h : OwnL fl s loc locB) : OwnL fl (s.onMem Mem.tick).2 loc locB :=
   h.mem_step (fun _ _ hx => hx.tick)
 
-theorem OwnL.dropId {s a loc locB} (h : OwnL s (a :: loc) locB) :
-    OwnL (s.onMem (Mem.dropId a)).2 loc locB :=
+theorem OwnL.dropId {s a loc locB} (h : OwnL fl s (a :: loc) locB) :
+    OwnL fl (s.onMem (Mem.dropId a)).2 loc locB :=
   h.mem_step (fun _ _ hx => Acct.dropId hx)
 
-theorem OwnL.retId {s a loc locB} (h : OwnL s (a :: loc) locB) :
-    OwnL (s.withMem (Mem.retId a)) loc locB :=
+theorem OwnL.retId {s a loc locB} (h : OwnL fl s (a :: loc) locB) :
+    OwnL fl (s.withMem (Mem.retId a)) loc locB :=
   h.mem_step (fun _ _ hx => Acct.retId hx)
 
-theorem OwnL.markDrops {s as loc locB} (h : OwnL s (as ++ loc) locB) :
-    OwnL (s.withMem (Mem.markDrops as)) loc locB :=
+theorem OwnL.markDrops {s as loc locB} (h : OwnL fl s (as ++ loc) locB) :
+    OwnL fl (s.withMem (Mem.markDrops as)) loc locB :=
   h.mem_step (fun _ _ hx => Acct.markDrops (by rwa [List.append_assoc] at hx))
 
-theorem OwnL.markDropSlots {s as loc locB} (h : OwnL s (as ++ loc) locB) :
-    OwnL (s.withMem (Mem.markDropSlots (as.map .init))) loc locB :=
+theorem OwnL.markDropSlots {s as loc locB} (h : OwnL fl s (as ++ loc) locB) :
+    OwnL fl (s.withMem (Mem.markDropSlots (as.map .init))) loc locB :=
   h.mem_step (fun _ _ hx => Acct.markDropSlots (by rwa [List.append_assoc] at hx))
 
-theorem OwnL.dropSlice {s as loc locB} (h : OwnL s (as ++ loc) locB) :
-    OwnL (s.onMem (Mem.dropSlice (as.map .init))).2 loc locB :=
+theorem OwnL.dropSlice {s as loc locB} (h : OwnL fl s (as ++ loc) locB) :
+    OwnL fl (s.onMem (Mem.dropSlice (as.map .init))).2 loc locB :=
   h.mem_step (fun _ _ hx => Acct.dropSlice (by rwa [List.append_assoc] at hx))
 
-theorem OwnL.dropLoop {s as loc locB} (h : OwnL s (as ++ loc) locB) :
-    OwnL (s.onMem (Mem.dropLoop (as.map .init))).2 loc locB :=
+theorem OwnL.dropLoop {s as loc locB} (h : OwnL fl s (as ++ loc) locB) :
+    OwnL fl (s.onMem (Mem.dropLoop (as.map .init))).2 loc locB :=
   h.mem_step (fun _ _ hx => Acct.dropLoop (by rwa [List.append_assoc] at hx))
 
-theorem OwnL.alloc {s loc locB} (h : OwnL s loc locB) :
-    OwnL (s.onMem Mem.alloc).2 loc (s.mem.nextBuf :: locB) :=
+theorem OwnL.alloc {s loc locB} (h : OwnL fl s loc locB) :
+    OwnL fl (s.onMem Mem.alloc).2 loc (s.mem.nextBuf :: locB) :=
   h.mem_step (fun _ _ hx => hx.alloc)
 
-theorem OwnL.free {s b loc locB} (h : OwnL s loc (b :: locB)) :
-    OwnL (s.withMem (Mem.free b)) loc locB :=
+theorem OwnL.free {s b loc locB} (h : OwnL fl s loc (b :: locB)) :
+    OwnL fl (s.withMem (Mem.free b)) loc locB :=
   h.mem_step (fun _ _ hx => Acct.free hx)
 
 /-- result of a callback that may produce a value: either a panic (nothing new) or a new owned id -/
-theorem OwnL.cloneId {s loc locB} (a : Nat) (h : OwnL s loc locB) :
+theorem OwnL.cloneId {s loc locB} (a : Nat) (h : OwnL fl s loc locB) :
     match s.onMem (Mem.cloneId a) with
-    | (none, s') => OwnL s' loc locB ∧ s'.v = s.v
-    | (some b, s') => OwnL s' (b :: loc) locB ∧ s'.v = s.v := by
+    | (none, s') => OwnL fl s' loc locB ∧ s'.v = s.v
+    | (some b, s') => OwnL fl s' (b :: loc) locB ∧ s'.v = s.v := by
   rw [St.onMem_eq]
-  have hcl := fun X Y (hx : Acct s.mem (loc ++ X) (locB ++ Y)) => hx.cloneId a
+  have hcl := fun X Y (hx : Acct fl s.mem (loc ++ X) (locB ++ Y)) => hx.cloneId a
   rcases hr : s.mem.cloneId a with ⟨_ | b, m'⟩ <;> simp only <;>
     exact ⟨h.mem_step (fun X Y hx => by have := hcl X Y hx; rw [hr] at this; exact this), trivial⟩
 
-theorem OwnL.genVal {s loc locB} (h : OwnL s loc locB) :
+theorem OwnL.genVal {s loc locB} (h : OwnL fl s loc locB) :
     match s.onMem Mem.genVal with
-    | (none, s') => OwnL s' loc locB ∧ s'.v = s.v
-    | (some b, s') => OwnL s' (b :: loc) locB ∧ s'.v = s.v := by
+    | (none, s') => OwnL fl s' loc locB ∧ s'.v = s.v
+    | (some b, s') => OwnL fl s' (b :: loc) locB ∧ s'.v = s.v := by
   rw [St.onMem_eq]
-  have hcl := fun X Y (hx : Acct s.mem (loc ++ X) (locB ++ Y)) => hx.genVal
+  have hcl := fun X Y (hx : Acct fl s.mem (loc ++ X) (locB ++ Y)) => hx.genVal
   rcases hr : s.mem.genVal with ⟨_ | b, m'⟩ <;> simp only <;>
     exact ⟨h.mem_step (fun X Y hx => by have := hcl X Y hx; rw [hr] at this; exact this), trivial⟩
 
@@ -468,7 +600,7 @@ theorem Mem.cloneId_out (a : Nat) (m : Mem) : (m.cloneId a).2.out = m.out := by
   cases p <;> simpa using this
 
 /-- every element of the container is live: its slot is initialised and its id is not out -/
-theorem OwnL.get {s loc locB} (h : OwnL s loc locB) {i : Nat} (hi : i < s.v.len) :
+theorem OwnL.get {s loc locB} (h : OwnL fl s loc locB) {i : Nat} (hi : i < s.v.len) :
     ∃ a, s.v.get i = .init a ∧ a ∉ s.mem.out := by
   obtain ⟨L, rest, hl, hs, -, ha⟩ := h
   have hi' : i < L.length := hl ▸ hi
@@ -478,11 +610,11 @@ theorem OwnL.get {s loc locB} (h : OwnL s loc locB) {i : Nat} (hi : i < s.v.len)
     simp
 
 /-- clone through a reference to a live element -/
-theorem OwnL.cloneSlot {s loc locB} (h : OwnL s loc locB) {x : Slot} {a : Nat} (hx : x = .init a)
+theorem OwnL.cloneSlot {s loc locB} (h : OwnL fl s loc locB) {x : Slot} {a : Nat} (hx : x = .init a)
     (hout : a ∉ s.mem.out) :
     match s.onMem (Mem.cloneSlot x) with
-    | (none, s') => OwnL s' loc locB ∧ s'.v = s.v ∧ s'.mem.out = s.mem.out
-    | (some b, s') => OwnL s' (b :: loc) locB ∧ s'.v = s.v ∧ s'.mem.out = s.mem.out := by
+    | (none, s') => OwnL fl s' loc locB ∧ s'.v = s.v ∧ s'.mem.out = s.mem.out
+    | (some b, s') => OwnL fl s' (b :: loc) locB ∧ s'.v = s.v ∧ s'.mem.out = s.mem.out := by
   subst hx
   have h1 := h.cloneId a
   have h2 := Mem.cloneId_out a s.mem
@@ -492,9 +624,9 @@ theorem OwnL.cloneSlot {s loc locB} (h : OwnL s loc locB) {x : Slot} {a : Nat} (
     exact ⟨h1.1, trivial, h2⟩
 
 /-- `set_len(n)` with `n ≤ len`: the elements `n..len` become locally owned -/
-theorem OwnL.setLen_take {s loc locB} (h : OwnL s loc locB) {n : Nat} (hn : n ≤ s.v.len) :
+theorem OwnL.setLen_take {s loc locB} (h : OwnL fl s loc locB) {n : Nat} (hn : n ≤ s.v.len) :
     ∃ tl : List Nat, s.v.range n s.v.len = tl.map .init ∧ tl.length = s.v.len - n ∧
-      OwnL (s.setLen n) (tl ++ loc) locB := by
+      OwnL fl (s.setLen n) (tl ++ loc) locB := by
   obtain ⟨L, rest, hl, hs, hp, ha⟩ := h
   refine ⟨L.drop n, ?_, by simp [hl], L.take n, (L.drop n).map .init ++ rest, ?_, ?_, hp, ?_⟩
   · have hs' : s.v.slots = (L.take n).map .init ++ (L.drop n).map .init ++ rest := by
